@@ -93,6 +93,24 @@ func exportedTable(c *Ctx) {
 		}
 		run.Check("G-EXPORTED/table", "empty", pos, err == nil && conc && cs == "", fmt.Sprintf("Exported(\"\") = %s (%v), want \"\"", interp.Show(v), err))
 	}
+	// ---- two legal, distinct parameter names that differ in the case of the first letter
+	if c.collisionRows {
+		call := func(name string) (string, bool) {
+			m := interp.New(c.Prog)
+			v, err := m.Call(flPos, fl, []interp.Value{interp.Lit(name)})
+			if s, ok := v.(*interp.Sym); ok && err == nil {
+				return s.Concrete()
+			}
+			return "", false
+		}
+		a, okA := call("kv")
+		b, okB := call("Kv")
+		if !okA || !okB {
+			run.Undecided("G-EXPORTED/distinct-fields", "kv,Kv", pos, "Exported cannot be evaluated on the names kv and Kv")
+		} else {
+			run.Check("G-EXPORTED/distinct-fields", "kv,Kv", pos, a != b, fmt.Sprintf("the parameters kv and Kv of one method are distinct identifiers, their call-record fields are Exported(\"kv\") = %q and Exported(\"Kv\") = %q: the record struct declares one field twice unless the generator tells such names apart before it spells the fields", a, b))
+		}
+	}
 	// ---- the table itself
 	var table []string
 	{
